@@ -5,11 +5,11 @@ package cpusuppress
 import (
 	"strconv"
 
+	topov1alpha1 "github.com/k8stopologyawareschedwg/noderesourcetopology-api/pkg/apis/topology/v1alpha1"
 	corev1 "k8s.io/api/core/v1"
 	"k8s.io/apimachinery/pkg/api/resource"
 	metav1 "k8s.io/apimachinery/pkg/apis/meta/v1"
 	"k8s.io/apimachinery/pkg/types"
-	topov1alpha1 "github.com/k8stopologyawareschedwg/noderesourcetopology-api/pkg/apis/topology/v1alpha1"
 
 	apiext "github.com/koordinator-sh/koordinator/apis/extension"
 	slov1alpha1 "github.com/koordinator-sh/koordinator/apis/slo/v1alpha1"
@@ -81,11 +81,11 @@ type zzvInformer struct {
 	topo *topov1alpha1.NodeResourceTopology
 }
 
-func (i *zzvInformer) GetAllPods() []*statesinformer.PodMeta              { return i.pods }
+func (i *zzvInformer) GetAllPods() []*statesinformer.PodMeta           { return i.pods }
 func (i *zzvInformer) GetNodeTopo() *topov1alpha1.NodeResourceTopology { return i.topo }
 
 var zzvApplied struct {
-	called bool
+	called  bool
 	be, old []int32
 }
 
@@ -187,6 +187,9 @@ func ZzvC10CPUSet() {
 	step := int64((n + 9) / 10)
 	want = zzverif.MinInt64(want, int64(oldSize)+step)
 	size := int64(len(zzvApplied.be))
+	if size > 0 {
+		zzverif.Reach("a-be-cpu-set-was-applied")
+	}
 	zzverif.Assert(size <= want, "never more CPUs than budgeted (at least two, step-limited)")
 	zzverif.Assert(zzverif.Implies(int64(eligible) >= want, size == want), "exactly the budgeted number whenever enough eligible CPUs exist")
 	if eligible == 0 {
@@ -334,10 +337,11 @@ func ZzvC10Quota() {
 	r := &CPUSuppress{cgroupReader: &zzvQuotaReader{current: current}, executor: ex}
 	r.adjustByCfsQuota(resource.NewMilliQuantity(budget, resource.DecimalSI), node)
 	target := zzverif.MaxInt64(budget*100, 2000) // milli * 100000 us / 1000, floored by beMinQuota
-	step := cores * 10000                         // 10% of the node per round
-	bypass := cores * 1000                        // changes below 1% of the node may be skipped
+	step := cores * 10000                        // 10% of the node per round
+	bypass := cores * 1000                       // changes below 1% of the node may be skipped
 	zzverif.Assert(len(ex.written) <= 1, "at most one quota write per round")
 	if len(ex.written) == 1 {
+		zzverif.Reach("quota-written")
 		v, err := strconv.ParseInt(ex.written[0], 10, 64)
 		zzverif.Assert(err == nil, "the written quota is a decimal integer")
 		limited := zzverif.And(current != -1, target-current > step)
@@ -345,6 +349,7 @@ func ZzvC10Quota() {
 		zzverif.Assert(zzverif.Implies(limited, v == current+step), "growth of a quota that is already set is limited to the step per round")
 		zzverif.Assert(v >= 2000, "the quota is never below the minimum quota")
 	} else {
+		zzverif.Reach("quota-write-skipped")
 		diff := target - current
 		zzverif.Assert(zzverif.And(zzverif.And(diff < bypass, -diff < bypass), target != 2000), "the write is skipped only for a change below the bypass delta that does not go to the minimum quota")
 	}
